@@ -38,7 +38,7 @@ def run(ck, a):
                'models': 'world-attached chains hs / h / sh with damping and armature; a single free body', 'outside': 'float round-off; inv_approximate accuracy'}
   ck.assumptions += ['reals for floats', 'sin/cos of dt|w|/2 as a circle point', 'jax.scipy.linalg.solve interpreted as the exact solution (Gaussian elimination)']
   replay = {}
-  cfgs = [('hs', False), ('h', False), ('sh', False), (None, True)] if not thorough else [('hs', False), ('h', False), ('sh', False), ('hh', False), ('hsh', False), (None, True)]
+  cfgs = [('hs', False), ('h', False), ('sh', False), ('hsh', False), (None, True)] if not thorough else [('hs', False), ('h', False), ('sh', False), ('hh', False), ('hsh', False), (None, True)]
   for word, free in cfgs:
     if free:
       spec = {'bodies': [{'name': 'b', 'parent': -1, 'pos': (0, 0, 1), 'quat': (1, 0, 0, 0), 'joints': [{'name': 'jf', 'type': 'free'}],
@@ -168,8 +168,8 @@ def run(ck, a):
   from checks.c01 import TS, half_point
   from spec import mech
   dyn_models = []
-  for words, free in ([(['s'], True), (['hs'], False), (['h', 's'], False), (['sh'], True), ([], True)] if not thorough else
-                      [(['s'], True), (['hs'], False), (['h', 's'], False), (['sh'], True), ([], True), (['hh'], True), (['s', 'h'], True), (['hsh'], False), (['h', 'h', 's'], False)]):
+  for words, free in ([(['s'], True), (['hs'], False), (['h', 's'], False), (['sh'], True), ([], True), (['hsh'], False)] if not thorough else
+                      [(['s'], True), (['hs'], False), (['h', 's'], False), (['sh'], True), ([], True), (['hsh'], False), (['hh'], True), (['s', 'h'], True), (['shh'], False), (['h', 'h', 's'], False)]):
     if free:
       spec = models.tree_model(rng, words, free_root=True, ortho=False, limits_p=0.0, actuators=min(1, len(words)), joint_props=True)
     else:
